@@ -204,6 +204,8 @@ func vfC17MDo(t *testing.T, s *vfutil.Session, c *vfC17MCase, tag int, src strin
 		cl.Close()
 		if known && merr == nil {
 			if before, ok := bstart(t0, c.old, cur); ok {
+				var afters []string
+				refused, violated := false, false
 				for k := 0; k <= len(allWs); k++ {
 					cut := seedLen
 					if k > 0 {
@@ -222,6 +224,7 @@ func vfC17MDo(t *testing.T, s *vfutil.Session, c *vfC17MCase, tag int, src strin
 						// TestResolveBisyncCheckpointNameRejectsPlainCheckpointFallback pins that; journal
 						// gap): it issues no request, the target keeps its position
 						s.Count("migrate_refused")
+						refused = true
 						break
 					}
 					if err2 != nil || !ok2 || after < before {
@@ -234,9 +237,25 @@ func vfC17MDo(t *testing.T, s *vfutil.Session, c *vfC17MCase, tag int, src strin
 						}
 						s.Violate("migrate-next-start-regresses", fmt.Sprintf("the bidirectional start resumed at %d (namespace mode %s); stopped after request #%d (%s), the next start (switch to %s completed, then StartPoint) resumes at %d (ok=%v, err=%v) [%s]", before, cur, k, req, c.desired, after, ok2, err2, kind),
 							map[string]interface{}{"op": op, "crash_after_request": k, "before": before, "after": after})
+						violated = true
 						break
 					}
 					s.Count("migrate_next_start_checked")
+					if a := strconv.FormatInt(after, 10); len(afters) == 0 || afters[len(afters)-1] != a {
+						afters = append(afters, a)
+					}
+				}
+				// tie (op c17mb): the start in the current mode before, and the next start after EVERY request the
+				// switch issued (consecutive duplicates removed), vs Model/MigrateNs.lean bisyncStart / nextStart over
+				// the prefixes of migrateReqsB — Props/C17Migrate.lean migrate_start_exact proves them all EQUAL
+				if !refused && !violated {
+					s.Op(fmt.Sprintf("c17mb %d %s %s %s %s %s %s %s", tag, vfutil.HexS(config.Version), checkpoint.VfHexList(c.ids),
+						string(c.desired), nn, nowsS, c.st.Encode(), nsEnc),
+						fmt.Sprintf("#%d cur=%s before=%d after=%s", tag, string(cur), before, strings.Join(afters, ",")))
+					s.Count("migrate_start_tied")
+					if len(afters) != 1 || afters[0] != strconv.FormatInt(before, 10) {
+						s.Count("migrate_start_moved")
+					}
 				}
 			}
 		}
@@ -737,6 +756,11 @@ func vfC17SetRunIdErrors(t *testing.T, s *vfutil.Session, c *vfStCase, base []vf
 				tf.CloseAll()
 				logF = tf.LogCopy()
 			})
+			if j >= len(logF) {
+				// the run issued fewer requests than the fault-free one: the planted error reply was never reached
+				s.Count("start_error_reply_unreached")
+				continue
+			}
 			var issued []string
 			for i := n1; i < len(logF); i++ {
 				if l, ok := checkpoint.VfRenderWrite(logF[i]); ok && i != j {
@@ -980,7 +1004,7 @@ func TestVerifC17Start(t *testing.T) {
 			vfC17Start(t, s, c, "corpus")
 		}
 	}
-	n := vfutil.Scale(60, 1500)
+	n := vfutil.Scale(60, 1100)
 	for i := 0; i < n; i++ {
 		vfC17Start(t, s, vfC17StartGen(r.Fork()), "gen")
 	}
